@@ -339,7 +339,7 @@ func VerifC06Implicit() {
 	if err != nil {
 		return
 	}
-	vals, err := url.ParseQuery(u.Fragment)
+	vals, err := url.ParseQuery(u.EscapedFragment()) // the fragment as the user agent sees it
 	nd.Assert(err == nil, "the fragment is a parameter list")
 	if err != nil {
 		return
